@@ -1,12 +1,16 @@
 #!/bin/sh
-# usage: try_patch.sh <patch.diff> <PROP> [PROP...]   -- applies a seeded change to /repo, runs the checks, reverts
+# usage: try_patch.sh <patch.diff> <PROP> [PROP...]   -- applies a seeded change to /repo, runs the checks, reverts.
+# The evidence files are saved before and restored afterwards (evidence must come from the unchanged tree).
 p="$1"; shift
 cd /repo || exit 2
 if ! git diff --quiet; then echo "repo dirty"; exit 2; fi
 if ! git apply "$p"; then echo "PATCH DOES NOT APPLY: $p"; exit 3; fi
+sav=$(mktemp -d); cp -a /verif/evidence/. "$sav"/
 for prop in "$@"; do
   echo "--- $prop on $p"
-  python3 /verif/check.py "$prop" --tier quick 2>&1 | grep -v conda | grep -v "^KNOWN-FINDING" | cut -c1-400 | head -8
-  echo "exit=$?"
+  python3 /verif/check.py "$prop" --tier quick > "$sav/.out" 2>&1; rc=$?
+  grep -v conda "$sav/.out" | grep -v "^KNOWN-FINDING" | cut -c1-400 | head -8
+  echo "exit=$rc"
 done
-git -C /repo checkout -- . 
+git -C /repo checkout -- .
+cp -a "$sav"/*.json /verif/evidence/; rm -rf "$sav"
